@@ -35,7 +35,7 @@ ValidTok(kind) ==
     [] kind = "posang" -> {"q1as", "q3am", "q2deg", "q180as", "q2degu"}
     [] kind = "regpix" -> {"regP1", "regP2"}
     [] kind = "regsky" -> {"regS1", "regS2"}
-    [] kind = "text" -> {"tHello", "tEmpty"}
+    [] kind = "text" -> {"tHello", "tEmpty", "tPadded"}          \* tPadded: blanks and a tab around the label are part of it
     [] kind = "oper" -> {"op_and", "op_or"}
 InvalidTok(kind) ==
   CASE kind = "pos" -> {"zero", "neg", "nan", "inf", "str", "none", "list", "arr0d", "arr1d", "arr1", "list1", "a30", "qpix"}
